@@ -59,6 +59,7 @@ class SupvisorsTimes:
         # approximate startup monotonic time of the remote Supvisors instance (in the local monotonic time reference)
         # will be used to display the remote Supvisors instance uptime
         self.start_local_mtime: float = -1.0
+        self.stealth_restart: bool = False
 
     @property
     def capped_remote_time(self) -> int:
@@ -114,6 +115,7 @@ class SupvisorsTimes:
             # The Supvisors periodical check will handle the node invalidation
             local_sequence_counter = 0
             self.start_local_mtime = -1
+            self.stealth_restart = True
         # update remote attributes
         self.remote_sequence_counter = remote_sequence_counter
         self.remote_mtime = remote_mtime
@@ -205,6 +207,7 @@ class SupvisorsInstanceStatus:
             # mark the entry in CHECKING state
             if new_state == SupvisorsInstanceStates.CHECKING:
                 self.checking_time = time.monotonic()
+                self.times.stealth_restart = False
 
     @property
     def running(self) -> bool:
@@ -253,7 +256,9 @@ class SupvisorsInstanceStatus:
         #       local_sequence_counter of the remote Supvisors instance, unless the remote Supvisors instance is stopped
         #       or unreachable, because the periodic check is performed on the new local TICK.
         counter_diff = local_sequence_counter - self.times.local_sequence_counter
-        return self.has_active_state() and counter_diff > self.supvisors.options.inactivity_ticks
+        # NOTE: the counter difference alone does not reveal a stealth restart when the local counter is still low
+        return self.has_active_state() and (self.times.stealth_restart
+                                            or counter_diff > self.supvisors.options.inactivity_ticks)
 
     def is_checking(self, timestamp: float) -> bool:
         """ Return True if the Supvisors instance is in CHECKING state and the timestamp is later than the entry date
